@@ -400,6 +400,8 @@ def op_of(body):
         return ('recv', True, 'poll')
     if h is None:
         return None
+    if body.j.get('vis') not in (None, 'Public') and not body.j.get('impl_trait'):
+        return None  # a private helper of a handle (`try_recv_locked(guard)`): seen through the public operations that call it
     side = 'S' if 'Sender' in h else 'R'
     if k.endswith('as std::ops::Drop>::drop'):
         return ('drop', side, None)
